@@ -34,15 +34,19 @@ deriving DecidableEq, Repr
 /-- fixed-point scale of the anomaly difference `_diff` (radians × 2^20) used by the correspondence stub -/
 def anomalyUnit : Int := 1048576
 
+/-- smallest integer above `π · anomalyUnit` (π · 2^20 = 3294198.2…): for an integer `d`, `d / 2^20 < π ↔ d < piUnit` -/
+def piUnit : Int := 3294199
+
 /-- the stub keeps the anomaly difference inside (−π, π): clamp to ±3 rad -/
 def clampAnom (x : Int) : Int := if x > 3 * anomalyUnit then 3 * anomalyUnit else if x < -(3 * anomalyUnit) then -(3 * anomalyUnit) else x
 
 def assemble (unit : Int) (sight umbra : Bool) (c : Chan) (F : Int → Int)
-    (G : Int → Bool → Int → Int → Int → Int → Bool)
-    (L : Int → Bool → Int → Int → Int → Int → Int → String) : Lst where
+    (G : Int → Int → Bool → Int → Int → Int → Int → Int → Bool)
+    (L : Int → Bool → Bool → Int → Int → Int → Int → Int → String) : Lst where
   f := F
-  guard := fun t => G unit sight (c.phi t) (c.phidot t) (c.rdot t) (F t)
-  label := fun p te => L unit umbra (c.phi te) (c.phidot te) (c.rdot te) (F te) (F p)
+  guard := fun p t => G unit piUnit sight (c.phi t) (c.phidot t) (c.rdot t) (F t) (F p)
+  -- `self._backward(end)`: the event state is earlier than `listener.prev`
+  label := fun p te => L unit umbra (decide (te < p)) (c.phi te) (c.phidot te) (c.rdot te) (F te) (F p)
 
 def viaF (c : Chan) (F : Int → Int → Int → Int → Int → Int → Int) : Int → Int :=
   fun t => F 1 (c.phi t) (c.phidot t) (c.rdot t) c.elev (c.mask t)
@@ -63,6 +67,6 @@ def mkLst (k : Kind) (c : Chan) : Lst :=
   | .light u => assemble 1 false u c c.phi lightGuard lightLabel
   | .terminator => assemble 1 false false c c.phi terminatorGuard terminatorLabel
   | .anomaly key => assemble anomalyUnit false false c (fun t => clampAnom (c.phi t)) anomalyGuard
-      (fun _ _ _ _ _ _ _ => anomalyLabel key)
+      (fun _ _ _ _ _ _ _ _ => anomalyLabel key)
 
 end BeyondVerif.Listen
